@@ -286,6 +286,14 @@ def rule_c13_validity(prog: Program, col: Collector) -> None:
             if not ok and v[0] == "const":
                 # constant fallback only on the branch where there is no valid action at all
                 guarded = any(f[0] == "if" and f[2] is False and _seq_of_valid(f[1], G) for f in r.ctx)        # `if not valid:` = the valid list is falsy
+                # ... or asked for forgiveness: `try: return choice(valid) except IndexError: return 0` - the handler runs only when the list was empty
+                for f in r.ctx:
+                    if f[0] == "try" and f[2] == "except" and isinstance(f[3], ast.Try) and len(f[3].handlers) == 1 and len(f[3].body) == 1 \
+                            and isinstance(f[3].handlers[0].type, ast.Name) and f[3].handlers[0].type.id == "IndexError" and isinstance(f[3].body[0], ast.Return) \
+                            and isinstance(f[3].body[0].value, ast.Call) and isinstance(f[3].body[0].value.func, ast.Attribute) and f[3].body[0].value.func.attr == "choice":
+                        tried = [r2 for r2 in ft.of_kind("return") if r2.node is f[3].body[0]]
+                        if tried and tried[0] is not r and _elem_of_valid(tried[0].value, G):
+                            guarded = True
                 if guarded:
                     col.ok(ref.where(r.node), ref.short, "constant fallback only when there is no valid action (vacuous)")
                     continue
